@@ -2,6 +2,7 @@ package main
 
 import (
 	"fmt"
+	z80 "github.com/koron-go/z80"
 
 	"github.com/koron-go/z80/internal/verif/refz80"
 )
@@ -117,12 +118,13 @@ type c04RT struct {
 }
 
 func checkC04(c *Ctx) {
-	c.Rule = "all control-transfer/stack encodings (8 JP cc, 8 CALL cc, 8 RET cc, 4 JR cc, JP, JR, DJNZ, CALL, RET, RETI, RETN, 8 RST, JP (HL)/(IX)/(IY), 6 PUSH, 6 POP) x lattice (PC at 0000/8000/FFFC..FFFF, SP in W16 and PC-2..PC+5 incl. stack bytes overlapping the instruction, targets in W16 and PC-relative, all 256 relative offsets) x all 256 F, plus all 256 B x 256 offsets for DJNZ; oracles: refz80 and a separate truth-table oracle; two-Step round trips CALL cc/RST n;RET and PUSH qq;POP qq over SP lattice x 256 F. Non-trivial: counted as in C01."
+	c.Rule = "all control-transfer/stack encodings (8 JP cc, 8 CALL cc, 8 RET cc, 4 JR cc, JP, JR, DJNZ, CALL, RET, RETI, RETN, 8 RST, JP (HL)/(IX)/(IY), 6 PUSH, 6 POP) x lattice (PC at 0000/8000/FFFC..FFFF, SP in W16 and PC-2..PC+5 incl. stack bytes overlapping the instruction, targets in W16 and PC-relative, all 256 relative offsets) x all 256 F, plus all 256 B x 256 offsets for DJNZ; oracles: refz80 and a separate truth-table oracle; two-Step round trips CALL cc/RST n;RET and PUSH qq;POP qq over SP lattice x 256 F; RETN/RETI with a handler that switches stacks (z80.go: the handler is called before the opcode executes): the return pops from the SP the handler left, over SP x new SP x PC lattices. Non-trivial: counted as in C01."
 	c.Bound = "lattice v1 " + c.Tier
 	runStepConformance(c, stepConfOpts{name: "c04/step", aspects: AspState | AspMem | AspReads | AspWrites,
 		filter: func(e *Enc) bool { return c04Kind(e.Inst.Kind) }, extra: c04Oracle})
 	c04DJNZ(c)
 	c04RoundTrips(c)
+	c04TaskSwitch(c)
 	c.Assume("RETI may leave IFF1 unchanged or copy IFF2 (DESIGN §6)")
 }
 
@@ -302,4 +304,72 @@ func c04RoundTrips(c *Ctx) {
 	c.Nontrivial += n
 	c.States += n
 	c.Sample(c04RT{"PUSH IX; POP IX at PC=FFFE SP=0001 (SP wraps)", nil})
+}
+
+// spSwitcher is a RETN/RETI handler of a host-side task switcher: it re-points the stack (and loads
+// another register set) when the interrupt routine returns. z80.go documents that the handlers are
+// called *before* the opcode executes, so the return address comes from the stack the handler selected.
+type spSwitcher struct {
+	cpu   *z80.CPU
+	newSP uint16
+	calls int
+}
+
+func (h *spSwitcher) RETNHandle() { h.calls++; h.cpu.SP = h.newSP; h.cpu.BC.Lo ^= 0xFF }
+func (h *spSwitcher) RETIHandle() { h.calls++; h.cpu.SP = h.newSP; h.cpu.BC.Lo ^= 0xFF }
+
+func c04TaskSwitch(c *Ctx) {
+	w := newWorker(obsBackground(c))
+	var n int64
+	sps := []uint16{0x0000, 0x0001, 0x8000, 0xFFFE, 0xFFFF, 0x7F58}
+	news := []uint16{0x0000, 0x0001, 0x9000, 0xFFFE, 0xFFFF, 0x7F58, 0x7F5A}
+	for _, op := range []uint8{0x45, 0x4D} {
+		for _, pc := range []uint16{0x0100, 0xFFFE, 0x8000} {
+			for _, sp := range sps {
+				for _, nsp := range news {
+					for iff := 0; iff < 4; iff++ {
+						p := baseVector(1)
+						p.S.PC, p.S.SP = pc, sp
+						p.S.IFF1, p.S.IFF2 = iff&1 != 0, iff&2 != 0
+						cs := Case{S: p.S, Bytes: []uint8{0xED, op}}
+						w.setup(&cs)
+						h := &spSwitcher{cpu: &w.cpu, newSP: nsp}
+						w.cpu.RETNHandler, w.cpu.RETIHandler = h, h
+						wantPC := w.imem.Peek16(nsp)
+						oldTop := w.imem.Peek16(sp)
+						var pan interface{}
+						func() {
+							defer func() { pan = recover() }()
+							w.cpu.Step()
+						}()
+						n++
+						got := fromCPU(&w.cpu)
+						var d []string
+						if pan != nil {
+							d = append(d, fmt.Sprintf("panic: %v", pan))
+						} else {
+							if h.calls != 1 {
+								d = append(d, fmt.Sprintf("handler called %d times", h.calls))
+							}
+							if got.PC != wantPC || got.SP != nsp+2 {
+								d = append(d, fmt.Sprintf("the handler selected the stack at %04X (return address %04X there; the old stack at %04X holds %04X): after the return want PC=%04X SP=%04X, got PC=%04X SP=%04X", nsp, wantPC, sp, oldTop, wantPC, nsp+2, got.PC, got.SP))
+							}
+							if got.C != cs.S.C^0xFF {
+								d = append(d, "a register the handler changed was overwritten by the return")
+							}
+						}
+						if len(d) > 0 {
+							c.Report(fmt.Sprintf("c04/taskswitch:ED %02X", op), n, "", map[string]interface{}{"bytes": hexBytes(cs.Bytes), "pc": pc, "sp": sp, "handler_sets_sp": nsp}, append([]string{fmt.Sprintf("ED %02X at PC=%04X, SP=%04X, RETN/RETI handler sets SP=%04X", op, pc, sp, nsp)}, d...))
+							return
+						}
+					}
+				}
+			}
+		}
+	}
+	c.Evaluations += n
+	c.Transitions += n
+	c.Traces += n
+	c.Nontrivial += n
+	c.States += n
 }
